@@ -311,16 +311,17 @@ theorem mem_attOf {edges : List (Name × Name)} {u d : Name} : d ∈ attOf edges
     exact ⟨(u, d), ⟨h, rfl⟩, rfl⟩
 
 /-- the shutdown phase of the model satisfies the shutdown clause of the statement, for every choice function -/
-theorem shutdownLog_order (mods : List Name) (edges : List (Name × Name)) (pick : List Name → Nat)
+theorem shutdownLog_order (mods threads : List Name) (edges : List (Name × Name)) (pick : List Name → Nat)
     (rank : Name → Nat) (hnd : mods.Nodup)
     (hclosed : ∀ e ∈ edges, e.1 ∈ mods → e.2 ∈ mods)
     (hrank : ∀ e ∈ edges, rank e.2 < rank e.1)
     (hbound : ∀ m ∈ mods, rank m ≤ mods.length) :
-    ShutdownOrder mods edges (shutdownLog mods edges pick) := by
+    ShutdownOrder mods edges (shutdownLog mods threads edges pick) := by
   obtain ⟨snd, smem, ssort⟩ := getSortedModules_spec (attOf edges) mods rank pick
     (fun u hu d hd => hclosed (u, d) (mem_attOf.mp hd) hu)
     (fun u _ d hd => hrank (u, d) (mem_attOf.mp hd)) hbound
   unfold shutdownLog
+  rw [← List.map_append]
   refine ⟨?_, ?_, ?_⟩
   · unfold NeverAfter
     rw [List.pairwise_append]
@@ -333,12 +334,11 @@ theorem shutdownLog_order (mods : List Name) (edges : List (Name × Name)) (pick
       obtain ⟨x, _, rfl⟩ := List.mem_map.mp ha
       simp [isShutdown]
   · intro m hm
-    rw [List.count_append, List.count_append]
-    rw [count_map_one Ev.stopPoll (by intro a b h; cases h; rfl) mods hnd m hm,
-        count_map_zero Ev.shutdown (Ev.stopPoll m) (by intro a h; cases h),
-        count_map_zero Ev.stopPoll (Ev.shutdown m) (by intro a h; cases h),
-        count_map_one Ev.shutdown (by intro a b h; cases h; rfl) _ snd m ((smem m).mpr hm)]
-    exact ⟨rfl, rfl⟩
+    have h1 := count_map_one Ev.stopPoll (by intro a b h; cases h; rfl) mods hnd m hm
+    have h2 := count_map_zero Ev.stopPoll (Ev.shutdown m) (by intro a h; cases h)
+    have h3 := count_map_one Ev.shutdown (by intro a b h; cases h; rfl) _ snd m ((smem m).mpr hm)
+    simp only [List.map_append, List.count_append, h1, h2, h3]
+    exact ⟨by omega, trivial⟩
   · intro e he _
     unfold NeverAfter
     rw [List.pairwise_append]
